@@ -122,6 +122,19 @@ func checkPack(h *hz.H, md protoreflect.MessageDescriptor, d protoreflect.Messag
 			continue
 		}
 		if on == "default" {
+			// a destination that is not fresh: whatever it named before (the same type in a non-canonical spelling, another
+			// type, garbage), a successful pack leaves exactly "/" + full name and the encoding
+			for _, prev := range []string{"type.googleapis.com/" + tname, tname, "x/y/" + tname, "/" + tname + "x", "/google.protobuf.Empty", "garbage"} {
+				d2 := &anypb.Any{TypeUrl: prev, Value: []byte{0xde, 0xad}}
+				var e2 error
+				h.Eval(true, hz.Hash("C16reuse", tname, prev, fmt.Sprintf("%x", ref)))
+				if p := hz.Catch(func() { e2 = anyutil.MarshalFrom(d2, src, proto.MarshalOptions{Deterministic: true}) }); p != nil || e2 != nil || d2.TypeUrl != "/"+tname || !bytes.Equal(d2.Value, ref) {
+					cc := c
+					cc.URL = prev
+					h.Violate(key("reused-destination"), fmt.Sprintf("MarshalFrom(%s %s) into a destination that held TypeUrl %q: panic=%v err=%v, now TypeUrl=%q Value=%x; want %q and %x", tname, label, prev, p, e2, d2.TypeUrl, d2.Value, "/"+tname, ref), cc)
+					break
+				}
+			}
 			var a2 *anypb.Any
 			if p := hz.Catch(func() { a2, err = anyutil.New(src) }); p != nil || err != nil || a2 == nil || a2.TypeUrl != dst.TypeUrl {
 				h.Violate(key("new"), fmt.Sprintf("anyutil.New(%s %s): panic=%v err=%v any=%v", tname, label, p, err, a2), c)
